@@ -3,6 +3,7 @@ package codec
 import (
 	"encoding/json"
 	"fmt"
+	"os"
 	"path/filepath"
 	"reflect"
 	"strconv"
@@ -73,6 +74,8 @@ type valPayload struct {
 	TL1OK  bool   `json:"tl1ok"`
 	TL1    []int  `json:"tl1"`
 	TL1B   []int  `json:"tl1b"`
+	Small  bool   `json:"small"`
+	Orig2  bool   `json:"origin2"`
 	HasTL2 bool   `json:"hastl2"`
 	TL2    []int  `json:"tl2"`
 	JSON   *JT    `json:"json"`
@@ -116,10 +119,7 @@ func eqInts(a, b []int) bool {
 // runTL1 serves C01 (value round trips, deep value graph) and C02 (byte-level
 // mutations of every encoding, canonical-form acceptance).
 func runTL1(c *core.Ctx, prop string) error {
-	corpora := []Corpus{
-		{Name: "probe", Files: []string{probe("probe1.tl")}, TL2: "", Sanity: false},
-		{Name: "cases", Files: []string{tls("cases.tl")}, TL2: "*", Sanity: false, BytesVers: "cases_bytes."},
-	}
+	corpora := corporaFor(c)
 	k, kmut, kjson := c.Pick(2, 3), 0, 0
 	if prop == "C02" {
 		k, kmut = c.Pick(1, 2), c.Pick(2, 3)
@@ -146,13 +146,14 @@ func runCorpusTL1(c *core.Ctx, prop string, cp Corpus, k, kmut, kjson int) error
 	var tops []string
 	types := b.Schema["types"].(map[string]any)
 	for _, n := range b.Tops {
-		if types[n].(map[string]any)["origin2"] == true {
-			continue
+		if types[n].(map[string]any)["origin2"] == true && (prop == "C01" || prop == "C02" || prop == "C04") {
+			continue // TL1-only properties
 		}
 		tops = append(tops, n)
 	}
 	if len(tops) == 0 {
-		return fmt.Errorf("corpus %s: no TL1 top-level types", cp.Name)
+		c.Logf("corpus %s: no applicable top-level types for %s", cp.Name, prop)
+		return nil
 	}
 	c.Logf("corpus %s: %d top-level TL1 types, K=%d KMut=%d", cp.Name, len(tops), k, kmut)
 	var firstErr error
@@ -351,6 +352,9 @@ func replayVal(c *core.Ctx, b *Built, p *valPayload) ([]finding, error) {
 	add := func(class, key, what string) { fs = append(fs, finding{class, key, what}) }
 	var jsonFromTL1 string
 	for _, boxed := range []bool{false, true} {
+		if p.Orig2 {
+			break
+		}
 		in, op := p.TL1, "read1"
 		if boxed {
 			in, op = p.TL1B, "read1b"
@@ -367,6 +371,11 @@ func replayVal(c *core.Ctx, b *Built, p *valPayload) ([]finding, error) {
 			add("tl1", key, "panic: "+s.Panic)
 			continue
 		case s.Err != "":
+			if p.Small && b.Corpus.Sanity && strings.Contains(s.Err, "min object size") {
+				// the fixed "4 bytes per element" rule of --checkLengthSanity refusing elements that are smaller
+				add("tl1", "sanity-small-elements", fmt.Sprintf("%s of valid encoding %s rejected: %s", op, hexs(in), s.Err))
+				continue
+			}
 			add("tl1", key, fmt.Sprintf("%s of valid encoding %s rejected: %s", op, hexs(in), s.Err))
 			continue
 		case s.Consumed != len(in):
@@ -406,10 +415,13 @@ func replayVal(c *core.Ctx, b *Built, p *valPayload) ([]finding, error) {
 			if !eqInts(s.Dump.TL2, p.TL2) {
 				add("tl2", key, fmt.Sprintf("ReadTL2 of %s re-encodes to %s", hexs(p.TL2), hexs(s.Dump.TL2)))
 			}
-			if s.Dump.TL1Err != "" || !eqInts(s.Dump.TL1, p.TL1) {
+			if !p.Orig2 && (s.Dump.TL1Err != "" || !eqInts(s.Dump.TL1, p.TL1)) {
 				add("conv", "tl1-tl2-tl1/"+hexs(p.TL1), fmt.Sprintf("TL1 %s -> TL2 %s -> TL1 gives %s %s", hexs(p.TL1), hexs(p.TL2), hexs(s.Dump.TL1), s.Dump.TL1Err))
 			}
-			if s.Dump.JSON != jsonFromTL1 {
+			if p.Orig2 && p.JSON != nil {
+				checkJSON(c, b, p, s.Dump.JSON, add)
+			}
+			if !p.Orig2 && s.Dump.JSON != jsonFromTL1 {
 				add("conv", "json-differs/"+hexs(p.TL1), fmt.Sprintf("JSON after TL1 decode %s, after TL2 decode %s", jsonFromTL1, s.Dump.JSON))
 			}
 		}
@@ -558,6 +570,9 @@ func replayEdge(c *core.Ctx, b *Built, p *valPayload, n int) ([]finding, error) 
 // specified tree, and read back into a value with the same three encodings (C05).
 func checkJSON(c *core.Ctx, b *Built, p *valPayload, text string, add func(class, key, what string)) {
 	key := "json/" + hexs(p.TL1)
+	if p.Orig2 {
+		key = "json2/" + hexs(p.TL2)
+	}
 	got, err := parseJSON(text)
 	if err != nil {
 		add("json", key, fmt.Sprintf("written JSON %s is invalid: %v", text, err))
@@ -585,7 +600,7 @@ func checkJSON(c *core.Ctx, b *Built, p *valPayload, text string, add func(class
 		if s.Dump.JSON != text {
 			add("json", key, fmt.Sprintf("JSON %s reads back and is written as %s", text, s.Dump.JSON))
 		}
-		if s.Dump.TL1Err != "" || !eqInts(s.Dump.TL1, p.TL1) {
+		if !p.Orig2 && (s.Dump.TL1Err != "" || !eqInts(s.Dump.TL1, p.TL1)) {
 			add("json", key, fmt.Sprintf("JSON %s reads back to TL1 %s %s, original %s", text, hexs(s.Dump.TL1), s.Dump.TL1Err, hexs(p.TL1)))
 		}
 		if p.HasTL2 && s.Dump.HasTL2 && !eqInts(s.Dump.TL2, p.TL2) {
@@ -628,4 +643,30 @@ func replayAlt(c *core.Ctx, b *Built, p *valPayload) ([]finding, error) {
 		}
 	}
 	return fs, nil
+}
+
+// corporaFor lists the generation units of a tier. VERIF_CORPUS restricts to one (debugging).
+func corporaFor(c *core.Ctx) []Corpus {
+	all := []Corpus{
+		{Name: "probe", Files: []string{probe("probe1.tl")}, TL2: "", Sanity: true},
+		{Name: "cases", Files: []string{tls("cases.tl")}, TL2: "*", Sanity: false, BytesVers: "cases_bytes."},
+	}
+	if c.Thorough() || os.Getenv("VERIF_CORPUS") != "" {
+		all = append(all,
+			Corpus{Name: "cases-sane-split", Files: []string{tls("cases.tl")}, TL2: "*", Sanity: true, BytesVers: "*", Split: true},
+			Corpus{Name: "goldmaster", Files: []string{tls("goldmaster.tl"), tls("goldmaster2.tl"), tls("goldmaster3.tl")}, TL2: "*", Sanity: false, BytesVers: "*"},
+			Corpus{Name: "schema", Files: []string{tls("schema.tl")}, TL2: "", Sanity: true},
+			Corpus{Name: "casestl2", Files: []string{tls("cases.tl2")}, TL2: "*", Sanity: true, BytesVers: "cases_bytes."},
+		)
+	}
+	if only := os.Getenv("VERIF_CORPUS"); only != "" {
+		var r []Corpus
+		for _, cp := range all {
+			if cp.Name == only {
+				r = append(r, cp)
+			}
+		}
+		return r
+	}
+	return all
 }
